@@ -140,3 +140,63 @@ Definition load_checks (legacy anc : bool) (t : gtab) : qout :=
               | e => e end
   | e => e
   end.
+
+(* ---- reading files, histories ---------------------------------------------- *)
+
+(* what read(samples=ss, variants=vs) of a file holding the table f loads: the samples whose ID
+   is requested and the variants whose ID is requested, in file order (None = all).  The
+   harness only asks for variant IDs that occur once in the file, so that the preallocation
+   of len(variants) records never truncates. *)
+Definition read_sel (ss vs : option (list Z)) (f : gtab) : gtab :=
+  let km := map (fun s => match ss with None => true | Some l => memZ s l end) (g_samples f) in
+  let kv := map (fun v => match vs with None => true | Some l => memZ (vid v) l end) (g_variants f) in
+  mkg (filter_mask km (g_samples f)) (filter_mask kv (g_variants f))
+      (map (filter_mask kv) (filter_mask km (g_rows f))) (g_planes f)
+      (option_map (fun a => map (filter_mask kv) (filter_mask km a)) (g_anc f)).
+
+(* A history on one object: read() of some file (the table it delivers), or one of the checks.
+   T = the type thresholds come in, [rare_of th k n] = "k non-reference alleles among n samples
+   is rarer than th".  The object has no state besides its arrays: what a check sees is what
+   the last read() loaded, as left by the checks since. *)
+Section Hist.
+  Variable T : Type.
+  Variable rare_of : T -> Z -> Z -> bool.
+
+  Inductive hop :=
+  | HRead (f : gtab)
+  | HMissing (discard : bool)
+  | HBiallelic (discard : bool)
+  | HPhase
+  | HMaf (thr : option T) (discard warn : bool)
+  | HSorted.
+
+  Definition hstep (anc : bool) (t : gtab) (op : hop) : qout :=
+    match op with
+    | HRead f => QOk f
+    | HMissing d => check_missing anc d t
+    | HBiallelic d => check_biallelic d t
+    | HPhase => check_phase false t
+    | HMaf None _ _ => QOk t
+    | HMaf (Some th) d w => check_maf (rare_of th) true d w t
+    | HSorted => check_sorted t
+    end.
+
+  (* an exception leaves the object as it was *)
+  Definition after (t : gtab) (o : qout) : gtab :=
+    match o with QOk t' => t' | QRaise _ _ => t end.
+
+  Fixpoint state_after (anc : bool) (t : gtab) (ops : list hop) : gtab :=
+    match ops with
+    | [] => t
+    | op :: r => state_after anc (after t (hstep anc t op)) r
+    end.
+
+  (* (contents before the call, the call, its outcome) for every call of the history *)
+  Fixpoint hrun (anc : bool) (t : gtab) (ops : list hop) : list (gtab * hop * qout) :=
+    match ops with
+    | [] => []
+    | op :: r => let o := hstep anc t op in (t, op, o) :: hrun anc (after t o) r
+    end.
+End Hist.
+Arguments HRead {T}. Arguments HMissing {T}. Arguments HBiallelic {T}. Arguments HPhase {T}.
+Arguments HMaf {T}. Arguments HSorted {T}.
